@@ -109,6 +109,10 @@ impl G {
                     return format!("cest {} {} {}", fab, self.node(), self.next_rid());
                 };
                 let is_case = v.sessions.iter().any(|x| x.0 == s && x.1 == 'c');
+                if is_case && self.deferred_case_write && flags & F_UPD_CSR == 0 && flags & (F_ADD_CSR | F_ROOT) != 0 {
+                    // open finding C08-failsafe-context-switch is left to the corpus: end this context
+                    return format!("arm {} 0", s);
+                }
                 if is_case && (self.r.chance(2, 3) || self.deferred_case_write) && flags & (F_ADD_CSR | F_ROOT) == 0 {
                     // UpdateNOC flow, or plain network / ACL work under the fail-safe
                     if flags & F_UPD_CSR == 0 {
@@ -205,7 +209,7 @@ impl G {
             }
             96..=97 => {
                 if c11 {
-                    format!("corrupt {:02x} {}", self.r.below(256), self.r.range(1, 40))
+                    format!("corrupt {:02x} {}", self.r.pick(&[0xffu8, 0x00, 0x15, 0x18, 0x30, 0x24, 0x7f]), self.r.range(1, 40))
                 } else {
                     "flush".into()
                 }
@@ -324,7 +328,7 @@ pub fn gen(prop: &'static str, a: &Args) -> String {
         _ => "one administrative history generated online (65-90% the next sensible commissioning step, rest out-of-order / repeated / other-session commands, expiry by timer / ArmFailSafe(0) / revoke / restart, store faults); non-trivial = the fail-safe was armed, a credential/ACL/group/label/network change was accepted under it, and the fail-safe ended (completed or rolled back); distinct = by operation list",
     };
     out.buf.push_str(&format!("#rule {}\n", rule));
-    let n_cases = if a.thorough { 40000 } else { 3000 };
+    let n_cases = if a.thorough { 30000 } else { 3000 };
     let h_every = if a.thorough { 20 } else { 15 };
     for id in 0..n_cases {
         let len = if a.thorough { r.range(8, 70) } else { r.range(8, 40) } as usize;
